@@ -45,7 +45,7 @@ func isTagsNamed(t types.Type) bool {
 }
 
 func tagMutatorName(s string) bool {
-	for _, p := range []string{"Add", "Remove", "Modify", "Set", "Clear"} {
+	for _, p := range []string{"Add", "Remove", "Modify", "Set", "Clear", "Clone"} { // Clone copies, it decides nothing
 		if strings.HasPrefix(s, p) {
 			return true
 		}
@@ -103,7 +103,9 @@ func runSkipReads(c *Ctx) []Obligation {
 				continue
 			}
 			fi := &fnInfo{decl: fd, info: p.TypesInfo}
-			if n := directTagRead(p.TypesInfo, fd.Body); n != nil {
+			if obj.Name() == "Clone" {
+				// a copy moves tags along without deciding anything from them
+			} else if n := directTagRead(p.TypesInfo, fd.Body); n != nil {
 				fi.reads = fmt.Sprintf("%s reads %s at %s", obj.Name(), nodeText(c.Fset, n), c.Position(n.Pos()))
 			}
 			fns[obj] = fi
@@ -123,7 +125,7 @@ func runSkipReads(c *Ctx) []Obligation {
 				if !ok {
 					return true
 				}
-				if g := calleeFunc(fi.info, call); g != nil {
+				if g := calleeFunc(fi.info, call); g != nil && obj.Name() != "Clone" {
 					if gi := fns[g.Origin()]; gi != nil && gi.reads != "" && g.Origin() != obj {
 						fi.reads = fmt.Sprintf("%s calls %s; %s", obj.Name(), g.Name(), gi.reads)
 						changed = true
